@@ -23,6 +23,10 @@
 #endif
 #define G 2
 #define G1_START (M - 1)
+#ifndef REQ
+#define REQ 0            /* the command whose run handler asks for the list: 0 = first of the table, M - 1 = last (then the FIRST command may be disabled) */
+#endif
+#define REQG ((REQ) >= G1_START ? 1 : 0)
 static int list_code(unsigned char b);
 #define CODESET(b) ((cat_return_state)list_code(b))
 
@@ -161,9 +165,9 @@ static void scen_run(void)
 
         world_assume();
         /* the request: AT+A<CR>?LF, +A enabled with a run handler and not test-only */
-        ASSUME(S.in[0] == 'A' && S.in[1] == 'T' && S.in[2] == '+' && S.in[3] == 'A');
+        ASSUME(S.in[0] == 'A' && S.in[1] == 'T' && S.in[2] == '+' && S.in[3] == 'A' + (REQ));
         ASSUME((S.in_len == 5 && S.in[4] == '\n') || (S.in_len == 6 && S.in[4] == '\r' && S.in[5] == '\n'));
-        ASSUME(!(S.fl[0] & (F_DISABLE | F_ONLY_TEST | F_IMPLICIT)) && (S.hm[0] & H_RUN) && !S.gd[0]);
+        ASSUME(!(S.fl[REQ] & (F_DISABLE | F_ONLY_TEST | F_IMPLICIT)) && (S.hm[REQ] & H_RUN) && !S.gd[REQG]);
         g_cr = (S.in_len == 6);
         world_build();
         g_cap = cmd_half_cap();
@@ -177,24 +181,25 @@ static void scen_run(void)
                 r = hinted_service(0, k, &W.at);
         }
         CHK(C19, r == CAT_STATUS_OK && W.in_pos == S.in_len, "request completely processed within the step bound");
-        CHK(C19, W.hl_n == 1 && W.hl_cmd[0] == 0 && W.hl_kind[0] == CAT_CMD_TYPE_RUN, "the run handler asking for the list ran once");
+        CHK(C19, W.hl_n == 1 && W.hl_cmd[0] == (REQ) && W.hl_kind[0] == CAT_CMD_TYPE_RUN, "the run handler asking for the list ran once");
         CHK(C19, !X.mismatch, "command list differs from what the dispatcher accepts (form, order, disabled commands, framing)");
         CHK(C19, !X.extra && X.done, "command list is longer or shorter than the descriptor prescribes");
         CHK(C10, !X.mismatch && !X.extra && X.done, "PRINT_CMD_LIST_OK: the command list, then exactly one result code");
+        CHK(C20, !X.mismatch && !X.extra && X.done, "a multi-line answer (command list) does not keep the newline style fixed by the request line (CRLF iff the line contained a CR)");
 
         WITNESS(X.lines >= 5 && X.fail_slot == NSLOT && X.done, "five-lines-listed");
         WITNESS(X.fail_slot != NSLOT, "line-does-not-fit");
-        WITNESS(X.fail_slot == NSLOT && X.done && (S.gd[1] || (S.fl[M - 1] & F_DISABLE)), "a-disabled-command-or-group");
+        WITNESS(X.fail_slot == NSLOT && X.done && (S.gd[1 - REQG] || (S.fl[(REQ) == 0 ? M - 1 : 0] & F_DISABLE)), "a-disabled-command-or-group");
 }
 
 #ifndef __CPROVER__
 static void scen_sample(void)
 {
         world_sample();
-        S.in[0] = 'A'; S.in[1] = 'T'; S.in[2] = '+'; S.in[3] = 'A';
+        S.in[0] = 'A'; S.in[1] = 'T'; S.in[2] = '+'; S.in[3] = (unsigned char)('A' + (REQ));
         if (rnd(2)) { S.in[4] = '\n'; S.in_len = 5; } else { S.in[4] = '\r'; S.in[5] = '\n'; S.in_len = 6; }
-        S.fl[0] &= ~(F_DISABLE | F_ONLY_TEST | F_IMPLICIT); S.hm[0] |= H_RUN; S.gd[0] = 0;
-        if (rnd(2)) { unsigned c; for (c = 1; c < M; c++) { S.fl[c] = (unsigned char)rnd(4); S.hm[c] = (unsigned char)rnd(16); } }
-        S.gd[1] = (unsigned char)(rnd(3) == 0);
+        if (rnd(2)) { unsigned c; for (c = 0; c < M; c++) if (c != (REQ)) { S.fl[c] = (unsigned char)rnd(4); S.hm[c] = (unsigned char)rnd(16); } }
+        S.gd[1 - REQG] = (unsigned char)(rnd(3) == 0);
+        S.fl[REQ] &= ~(F_DISABLE | F_ONLY_TEST | F_IMPLICIT); S.hm[REQ] |= H_RUN; S.gd[REQG] = 0;
 }
 #endif
